@@ -36,8 +36,8 @@ AXSIZE = {
      4 : 0b010, #  4-byte transaction.
      8 : 0b011, #  8-byte transaction.
     16 : 0b100, # 16-byte transaction.
-    32 : 0b110, # 32-byte transaction.
-    64 : 0b111, # 64-byte transaction.
+    32 : 0b101, # 32-byte transaction.
+    64 : 0b110, # 64-byte transaction.
 }
 
 # AXI Connection Helpers ---------------------------------------------------------------------------
